@@ -63,7 +63,7 @@ def main():
             return 2
         # run the check against the patched worktree
         outd = tempfile.mkdtemp(prefix='seedout.')
-        e2 = dict(os.environ, PYPYR_REPO=wt, VERIF_OUT=outd)
+        e2 = dict(os.environ, PYPYR_REPO=wt, VERIF_OUT=outd, VERIF_DEV='1')
         rcc, oc = sh(['./check', pid, '--tier', tier], cwd=V, env=e2, timeout=7200)
         lines = [ln for ln in oc.splitlines() if ln.startswith(('VIOLATION', 'KNOWN-FINDING', pid + ' ')) or 'INFRA' in ln]
         print('\n'.join(ln[:300] for ln in lines))
